@@ -548,6 +548,9 @@ impl PtraceDumper {
         }
 
         mapping
+            // The walk may have ended (guard distance exhausted) on a mapping without any
+            // permissions: that is not a stack.
+            .filter(|mapping| Self::may_be_stack(Some(mapping)))
             .map(|mapping| {
                 let valid_stack_pointer = if mapping.contains_address(stack_pointer) {
                     stack_pointer
